@@ -45,6 +45,8 @@ type c09Cfg struct {
 	NestedKey bool `json:"nested_path_key,omitempty"`
 	// BigNum: float64 key values that differ only beyond float32 precision (ids decoded from JSON), next to a text key
 	BigNum bool `json:"float64_keys_beyond_float32,omitempty"`
+	// QuotedN: the count written as a quoted number, CountingWindow('3')
+	QuotedN bool `json:"count_quoted,omitempty"`
 }
 
 func c09Opts(cfg c09Cfg) detOpts {
@@ -92,6 +94,7 @@ func c09Configs(tier string) []c09Cfg {
 		out = append(out, c09Cfg{N: n, Cols: 1, Eager: false, MaxL: maxL - 1, PanicSink: true})
 		out = append(out, c09Cfg{N: n, Cols: 1, Eager: true, MaxL: maxL - 1, NestedKey: true})
 		out = append(out, c09Cfg{N: n, Cols: 1, Eager: true, MaxL: maxL - 1, BigNum: true})
+		out = append(out, c09Cfg{N: n, Cols: 1, Eager: true, MaxL: maxL - 2, QuotedN: true})
 	}
 	return out
 }
@@ -158,6 +161,9 @@ func c09SQL(cfg c09Cfg) string {
 	}
 	if cfg.Cols == 2 {
 		return fmt.Sprintf("SELECT k, k2, count(*) AS c, collect(id) AS ids, first_value(id) AS f, last_value(id) AS l FROM stream GROUP BY k, k2, CountingWindow(%d)", cfg.N) + with
+	}
+	if cfg.QuotedN {
+		return fmt.Sprintf("SELECT k, count(*) AS c, collect(id) AS ids, first_value(id) AS f, last_value(id) AS l FROM stream GROUP BY k, CountingWindow('%d')", cfg.N) + with
 	}
 	return fmt.Sprintf("SELECT k, count(*) AS c, collect(id) AS ids, first_value(id) AS f, last_value(id) AS l FROM stream GROUP BY k, CountingWindow(%d)", cfg.N) + with
 }
